@@ -8,6 +8,7 @@ import (
 	"golang.org/x/text/unicode/norm"
 	"math"
 	"reflect"
+	"sort"
 	"strconv"
 
 	"github.com/smarthome-go/homescript/v3/homescript/analyzer/ast"
@@ -140,8 +141,15 @@ func UnmarshalValue(span herrors.Span, self interface{}) (*Value, *VmInterrupt) 
 		return NewValueBool(self), nil
 	case map[string]interface{}:
 		fields := make(map[string]*Value)
-		for key, field := range self {
-			value, err := UnmarshalValue(span, field)
+		// in key order: two spellings of one key collapse into one field, which of them survives must not depend
+		// on the iteration order of the decoded map
+		rawKeys := make([]string, 0, len(self))
+		for key := range self {
+			rawKeys = append(rawKeys, key)
+		}
+		sort.Strings(rawKeys)
+		for _, key := range rawKeys {
+			value, err := UnmarshalValue(span, self[key])
 			if err != nil {
 				return nil, err
 			}
